@@ -176,6 +176,40 @@ def compare(name, obs, m):
             raise Violation('form-differs:' + name.split('/')[0], 'form %s: before=%r at %s, reference %r' % (name, obs['before'], want, m.before))
 
 
+def toggle_history(case, pattern_arg, ic):
+    """expect(p) with ignorecase=ic, then ignorecase is flipped and the same pattern is used again on the same
+    object: the string pattern must follow the *current* setting each time."""
+    text_mode = case['enc'] is not None
+    data = case['stream']
+    script = [('d', data), ('t',), ('d', data)]
+    clock = scripted.VirtualClock()
+    kw = dict(maxread=2000, timeout=30)
+    if text_mode:
+        kw['encoding'] = 'utf-8'
+    sp = e1.Tracing(list(script), tail=case['tail'], clock=clock, **kw)
+    mo = refmodel.Model(list(script), case['tail'], encoding=case['enc'], maxread=2000)
+    natp = e1.conv(case['p'], text_mode)
+    with scripted.virtual_time(clock):
+        for step, setting in enumerate((ic, not ic, ic)):
+            sp.ignorecase = setting
+            ref = ('re', re.compile(natp, re.DOTALL | (re.IGNORECASE if setting else 0)))
+            m = mo.expect([ref], None)
+            sp.begin_call()
+            exc = ret = None
+            try:
+                with guard('expect() after ignorecase=%r' % setting, allow=(EOF, TIMEOUT)):
+                    ret = sp.expect(pattern_arg)
+            except EOF:
+                exc = 'EOF'
+            except TIMEOUT:
+                exc = 'TIMEOUT'
+            obs = {'ret': ret, 'exc': exc, 'before': sp.before, 'after': sp.after if exc is None else None,
+                   'buffer': sp.buffer, 'groups': (sp.match.groups() if exc is None and hasattr(sp.match, 'groups') else None)}
+            compare('str-after-ignorecase-change/step%d' % step, obs, m)
+            if m.kind == 'eof':
+                break
+
+
 def check_case(case, col=None):
     text_mode = case['enc'] is not None
     p, f, ic = case['p'], case['flags'], case['ignorecase']
@@ -233,6 +267,10 @@ def check_case(case, col=None):
         xforms.append(('exact/asciistr-list', lambda: [x], 'exact'))
     for name, mk, entry in xforms:
         compare(name, run_form(case, mk, entry, False), m_x)
+    # --- the same string pattern on one object before and after `ignorecase` is changed
+    toggle_history(case, nat(p), ic)
+    if not text_mode and ascii_p:
+        toggle_history(case, p, ic)
     # --- invalid objects
     bad = {'int': 7, 'float': 1.5, 'none': None, 'nested': [nat('a')], 'object': object(),
            'class': ValueError, 'wrongstr': (b'a' if text_mode else None)}[case['bad']]
